@@ -218,6 +218,15 @@ def oracle(c, impl):
     return []
 
 
+def pinned_job_served_and_unassigned(c, s):
+    """a plan job that a relation pins to a vehicle, which the document serves in a tour AND lists as unassigned, and that has a group"""
+    pinned = {j for r in (c['problem']['plan'].get('relations') or []) for j in r.get('jobs', [])}
+    grouped = {j['id'] for j in c['problem']['plan']['jobs'] if j.get('group')}
+    served = {a.get('jobId') for t in s.get('tours', []) for st in t['stops'] for a in st['activities']}
+    un = {u.get('jobId') for u in (s.get('unassigned') or [])}
+    return bool(pinned & grouped & served & un)
+
+
 def oracle_model(c, impl, model):
     s = _sol(impl)
     if s is None or e2e.unsupported(c, s):
@@ -286,7 +295,11 @@ def oracle_model(c, impl, model):
         cls = CLASS.get(name, name)
         tour = s['tours'][arg] if isinstance(arg, int) and 0 <= arg < len(s['tours']) and not name.startswith('FRel') \
             and name != 'FGroup' else None
-        if tour is not None and not any(a.get('type') not in ('departure', 'arrival') for st in tour['stops'] for a in st['activities']):
+        if name == 'FGroup' and pinned_job_served_and_unassigned(c, s):
+            # finding C01-F19 (seen once, not reproducible run by run; thread layout with 2 outer threads): a job pinned by a relation is
+            # in its tour AND in the unassigned list of the same core solution; the other job of its group was then placed elsewhere
+            cls = 'group-split-over-tours:pinned-job-of-the-group-served-and-listed-unassigned'
+        elif tour is not None and not any(a.get('type') not in ('departure', 'arrival') for st in tour['stops'] for a in st['activities']):
             # a tour without any job (root cause shared with C02-F1): every rule evaluated on it is moot
             vt = e2e.vehicle_type_of(c, tour)
             cls = 'empty-tour-max-duration-vehicle' if vt is not None and (vt.get('limits') or {}).get('maxDuration') is not None else 'empty-tour'
